@@ -34,6 +34,7 @@ class CSVFieldReader:
             ndmin=1,
             deletechars="",
             replace_space=" ",
+            comments=None,
         )
 
         if self._is_structured(data):
